@@ -43,6 +43,7 @@ func (c *verifSlot) Len() int { return 0 }
 //verif:harness name=H07d-cache-shared tier=quick,thorough bounds="one stored answer; 1..2 hits by requesters with independent symbolic ID, RD, CD and AD bits and a differently cased question name; both cache kinds" reach=hit,done maxpaths=20000
 //verif:assume one-slot cache stub; expiry not involved (same instant)
 func VerifC07CacheShared() {
+	verifPoolMode(1) // released pooled objects (cache requests, cloned messages) are handed back
 	noECS, ecs := &verifSlot{}, &verifSlot{}
 	mw := &Middleware{
 		cloner: dnsmsg.NewCloner(dnsmsg.EmptyClonerStat{}),
